@@ -221,7 +221,8 @@ class _ConfusionMatrix:
     if average is None or average in ('micro', 'binary'):
       return result
     elif average == 'macro':
-      return np.mean(result, axis=0)
+      # The class axis is the last one (top-k matrices have a leading k axis).
+      return np.mean(result, axis=-1)
     else:
       raise NotImplementedError(f'"{average}" average is not supported.')
 
